@@ -252,3 +252,21 @@ def sos_lemma(M, k):
     w = [z3.Real(f"sos_w{i}") for i in range(k)]
     tot = z3.Sum([(w[i] * r[i]) * (w[i] * r[i]) for i in range(k)])
     return SB(z3.ForAll(r + w, z3.Implies(z3.And([wi > 0 for wi in w]), z3.And(tot >= 0, z3.Implies(tot == 0, z3.And([ri == 0 for ri in r]))))))
+
+
+def poisson_oracle(Aeff, beff, w, b, lb, ub):
+    """independent numeric minimum of sum_j w_j (q_j - b_j ln q_j), q = Aeff x + beff, over the box (convex; L-BFGS-B with gradient)"""
+    from scipy.optimize import minimize
+    Ae = np.array(Aeff, dtype=float); be = np.array(beff, dtype=float); w = np.array(w, dtype=float); b = np.array(b, dtype=float)
+    lo = np.array(lb, dtype=float)
+    hi = np.array(ub, dtype=float) if ub is not None else np.full(len(lo), np.inf)
+
+    def f(x):
+        q = np.maximum(Ae @ x + be, 1e-300)
+        return float(np.sum(w * (q - b * np.log(q)))), Ae.T @ (w * (1 - b / q))
+    best = np.inf
+    for x0 in (np.where(np.isfinite(hi), 0.5 * (lo + hi), lo + 1.0), lo + 1e-3, np.where(np.isfinite(hi), hi, lo + 5.0)):
+        r = minimize(f, x0, jac=True, bounds=list(zip(lo, [None if not np.isfinite(h) else h for h in hi])), method="L-BFGS-B",
+                     options=dict(ftol=1e-14, gtol=1e-10, maxiter=2000))
+        best = min(best, float(r.fun))
+    return best
